@@ -74,7 +74,7 @@ Section Rows.
   Lemma lag_rows_spec k i : 1 <= k <= v ->
     (In i (lag_rows n k) <-> 0 <= i < n /\ (2 ^ (v - k + 1) | i)).
   Proof.
-    intros Hk. unfold lag_rows. rewrite stride_is by lia. rewrite in_map_iff.
+    intros Hk. unfold lag_rows. cbv zeta. rewrite stride_is by lia. rewrite in_map_iff.
     pose proof (p2_pos (v - k + 1) ltac:(lia)) as Hs. pose proof (p2_pos (k - 1) ltac:(lia)) as Hm.
     pose proof (n_factor k Hk) as En. split.
     - intros (j & <- & Hj). apply In_zrange in Hj. split; [nia|]. exists j. reflexivity.
@@ -83,13 +83,13 @@ Section Rows.
 
   Lemma lag_rows_length k : 1 <= k <= v -> Z.of_nat (length (lag_rows n k)) = 2 ^ (k - 1).
   Proof.
-    intros Hk. unfold lag_rows. rewrite map_length, zrange_length.
+    intros Hk. unfold lag_rows. cbv zeta. rewrite map_length, zrange_length.
     pose proof (p2_pos (k - 1) ltac:(lia)). lia.
   Qed.
 
   Lemma lag_rows_NoDup k : 1 <= k <= v -> NoDup (lag_rows n k).
   Proof.
-    intros Hk. unfold lag_rows. rewrite stride_is by lia.
+    intros Hk. unfold lag_rows. cbv zeta. rewrite stride_is by lia.
     pose proof (p2_pos (v - k + 1) ltac:(lia)) as Hs.
     apply FinFun.Injective_map_NoDup; [|apply zrange_NoDup]. intros a b H. nia.
   Qed.
